@@ -1,3 +1,3 @@
--- This module serves as the root of the `Pocket` library.
--- Import modules here that should be built as part of the library.
-import Pocket.Basic
+import Pocket.Model.Basic
+import Pocket.Model.Kind
+import Pocket.Model.Utf8
